@@ -225,8 +225,10 @@ def check_lengths(ctx):
     for y in ys:
         t = norm_text(y).replace(' ', '')
         ok = t == 'values[:-1]' and xs and norm_text(xs[0]) == 'bins'
-        ctx.ob('R3', fi, y, True if ok else (False if t == 'values' else None), 'overflow bin dropped: len(y) = len(bins) = len(x)' if ok else
-               'x and y of the radial distribution have different lengths / the overflow bin is kept')
+        bad = t in ('values', 'values[1:]', 'values[:]')
+        ctx.ob('R3', fi, y, True if ok else (False if bad else None), 'overflow bin dropped: len(y) = len(bins) = len(x)' if ok else
+               ('the first bin is dropped instead of the overflow bin: y is shifted by one bin against x and contains distances > max_dist'
+                if t == 'values[1:]' else 'x and y of the radial distribution have different lengths / the overflow bin is kept'))
     it = ctx.pipeline()
     # between species: histogram over the same bins, x = bins[:-1]
     fs = ctx.fn(RDS)
